@@ -293,6 +293,19 @@ func c20Property(rt *rapid.T, ev *evid.Rec) {
 			if gotErr == nil {
 				fail("%s: an enabled integration references an unknown source but no error was reported (tasks: %v)", what, c20Observed(mgr))
 			}
+			// the failed generation is over: it must not keep the run lock, or the next
+			// restart (after the operator repaired the configuration) blocks forever.
+			// (The lock is released a moment after the error is delivered; a generation
+			// that never releases it is what is looked for. 10 s is the search budget.)
+			idle := false
+			for i := 0; i < 10000 && !idle; i++ {
+				if idle = mgr.VerifIdle(); !idle {
+					time.Sleep(time.Millisecond)
+				}
+			}
+			if !idle {
+				fail("%s: loading failed (%v) but the failed generation still holds the run lock: every later restart blocks", what, gotErr)
+			}
 			return
 		}
 		if gotErr != nil {
